@@ -102,26 +102,27 @@ type regState struct {
 }
 
 type opRec struct {
-	idx       int
-	op        *operator.Operator
-	rs        *regState
-	ep        epoch // epoch of the snapshot it was built from
-	pos       int   // ledger length at that snapshot
-	prio      core.PriorityLevel
-	kind      string
-	steps     []operator.OpStep
-	shared    []operator.OpStep // the operator's own step slice (same backing array)
-	stores    map[uint64]bool
-	executed  []bool
-	seen      []bool // executed, as of the last heartbeat of the region
-	submitted bool
-	last      operator.OpStatus
-	running   bool
-	created   time.Time // virtual time of construction
-	started   time.Time // virtual time of the event in which it was started
-	unsound   bool // a faithful store refused one of its commands although nothing foreign happened (C08 matter)
-	ambiguous bool // a foreign change hit between an executed step and the heartbeat that reports it
-	unseen    bool
+	idx           int
+	op            *operator.Operator
+	rs            *regState
+	ep            epoch // epoch of the snapshot it was built from
+	pos           int   // ledger length at that snapshot
+	prio          core.PriorityLevel
+	kind          string
+	steps         []operator.OpStep
+	shared        []operator.OpStep // the operator's own step slice (same backing array)
+	stores        map[uint64]bool
+	executed      []bool
+	seen          []bool // executed, as of the last heartbeat of the region
+	submitted     bool
+	last          operator.OpStatus
+	running       bool
+	created       time.Time // virtual time of construction
+	started       time.Time // virtual time of the event in which it was started
+	burialPending bool      // reached an end status outside the controller (observer) while waiting; not buried yet
+	unsound       bool      // a faithful store refused one of its commands although nothing foreign happened (C08 matter)
+	ambiguous     bool      // a foreign change hit between an executed step and the heartbeat that reports it
+	unseen        bool
 }
 
 // next: pd's current step as far as the store can tell - the first step after
@@ -1461,8 +1462,14 @@ func (w *world) sweep(ev *evCtx) error {
 			if o.last == operator.CREATED && o.op.HasStarted() {
 				startedNow[o.rs] = append(startedNow[o.rs], o)
 			}
-			if operator.IsEndStatus(cur) && !running && !(ev.looked == o && ev.kind == "observer") {
-				endedNow[o.rs] = append(endedNow[o.rs], o) // (a waiting operator that expires while an observer looks at it is buried when its turn comes)
+			if operator.IsEndStatus(cur) && !running {
+				if ev.looked == o && ev.kind == "observer" {
+					// a waiting operator that expires while an observer looks at it is buried when its turn in the
+					// waiting queue comes: a later event, in which its status does not change any more
+					o.burialPending = true
+				} else {
+					endedNow[o.rs] = append(endedNow[o.rs], o)
+				}
 			}
 		}
 		if o.running && !running {
@@ -1551,6 +1558,13 @@ func (w *world) sweep(ev *evCtx) error {
 		ok := false
 		for _, o := range ended {
 			ok = ok || got.Op == o.op
+		}
+		if r := w.byOp[got.Op]; !ok && r != nil && r.rs == rs && r.burialPending && operator.IsEndStatus(got.Op.Status()) && w.runningRec(rs) != r {
+			// records are per region: the waiting operator of this region that had ended earlier under an observer's
+			// eyes was taken out of the waiting queue and buried in this event, after the operator that ended now
+			ok = true
+			r.burialPending = false
+			w.class("record:of-waiting-operator-that-ended-earlier-buried-now")
 		}
 		if !ok {
 			return w.errf("%s ended in this event, GetOperatorStatus(%d) reports another operator (%s)", ended[0], rs.sim.ID, got.Op)
